@@ -17,12 +17,14 @@ const (
 
 func init() {
 	Registry["C04"] = Spec{
-		Pkgs: map[string][]string{"v2": {"astvalidation"}, "execution": {"engine", "graphql"}},
+		Pkgs: map[string][]string{"v2": {"astvalidation", "astvisitor"}, "execution": {"engine", "graphql"}},
 		Run:  runC04,
 		Explanation: "Decides the structural half of 'the admission sequence accepts exactly the spec-valid operations': every operation rule the package offers is registered in DefaultOperationValidator (or is one of four frozen, reasoned exceptions); every callback a validation visitor implements is registered with the walker (no dead rule code) and per-walk state of reusable rule visitors is reset when a document is entered; " +
 			"ExecutionEngine.Execute reaches planning only through the success edges of normalization (when needed), then of ValidateForSchema (err == nil ∧ Valid), and reaches the resolver only when planning reported no error; ValidateForSchema validates with DefaultOperationValidator and the validator reports Invalid whenever the report has errors. " +
 			"It does not decide accept ⇔ spec-valid for all documents (that is the rules' own logic).",
 		Mutants: []Mutant{
+			{Name: "Walker no longer visits the directives of a schema definition (never validated)", File: "v2/pkg/astvisitor/visitor.go", Rule: "C04-R5", Key: "walker-siblings/walkSchemaDefinition",
+				Old: "\tif w.document.SchemaDefinitions[ref].HasDirectives {\n\t\tfor _, i := range w.document.SchemaDefinitions[ref].Directives.Refs {\n\t\t\tw.walkDirective(i)", New: "\tif false {\n\t\tfor _, i := range []int{} {\n\t\t\tw.walkDirective(i)"},
 			{Name: "validation memo ignores the validator options (seeded change C04-13)", File: gqlValidateGo, Rule: "C04-R4", Key: "memo-only-without-options",
 				Old: "\tif useCache {\n\t\tr.validForSchema[schemaHash] = result\n\t}\n", New: "\tr.validForSchema[schemaHash] = result\n"},
 			{Name: "KnownArguments rule dropped from the default validator", File: opValidationGo, Rule: "C04-R1", Key: "KnownArguments",
@@ -151,6 +153,9 @@ func runC04(r *fw.Run) {
 	r.Rule("C04-R2", "every astvisitor callback a validation visitor implements is registered with the walker; slice/map state a rule visitor accumulates during the walk is reset in EnterDocument")
 	wiringObligations(r, "C04-R2", "astvalidation", nil)
 	visitorStateReset(r, "C04-R2", "astvalidation", map[string]string{})
+
+	r.Rule("C04-R5", "the tree walker that drives validation/normalization (astvisitor.Walker) and the one that drives the printer (SimpleWalker) descend into the same children of every node kind")
+	walkerSiblings(r, "C04-R5")
 
 	// ---- R3 admission sequence --------------------------------------------------------------------
 	r.Rule("C04-R3", "ExecutionEngine.Execute plans only after normalization succeeded (when needed) and then ValidateForSchema returned err == nil ∧ Valid; it resolves only when planning reported no error")
